@@ -5,15 +5,18 @@ TT == IF "TIER" \in DOMAIN IOEnv /\ IOEnv.TIER = "thorough" THEN BTabT ELSE BTab
 TH == IF "TIER" \in DOMAIN IOEnv /\ IOEnv.TIER = "thorough" THEN BTabHT ELSE BTabH
 VARIABLE c
 Init == c = 0
-Next == /\ c < Len(TT) + Len(TH) /\ c' = c + 1
+Next == /\ c < Len(TT) + Len(TH) + Len(BTabG) /\ c' = c + 1
         /\ IF c' <= Len(TT)
            THEN PrintT(<<"CASE", ToJson([id |-> TT[c'].id, n |-> TT[c'].n, p |-> TT[c'].p,
                                      r2 |-> [k \in 1..Len(TT[c'].r2) |-> TT[c'].r2[k].w1],
                                      r1 |-> [k \in 1..Len(TT[c'].r1) |-> [w1 |-> TT[c'].r1[k].w1,
                                                                               js |-> [i \in 1..Len(TT[c'].r1[k].js) |-> TT[c'].r1[k].js[i].j]]],
                                      rt |-> [k \in 1..Len(TT[c'].rt) |-> [w1 |-> TT[c'].rt[k].w1, probe |-> TT[c'].rt[k].probe, y |-> TT[c'].rt[k].y]]])>>)
-           ELSE LET h == TH[c' - Len(TT)] IN
+           ELSE IF c' <= Len(TT) + Len(TH)
+           THEN LET h == TH[c' - Len(TT)] IN
                 PrintT(<<"CASE", ToJson([kernel |-> "btpeh", id |-> h.id, n |-> h.n, p |-> h.p, m |-> h.m,
                                          r2 |-> [k \in 1..Len(h.r2) |-> h.r2[k].w1]])>>)
+           ELSE LET g == BTabG[c' - Len(TT) - Len(TH)] IN
+                PrintT(<<"CASE", ToJson([kernel |-> "btpeg", id |-> g.id, n |-> g.n, p |-> g.p])>>)
 Spec == Init /\ [][Next]_c
 =============================================================================
